@@ -89,8 +89,12 @@ func c20Helpers() []helper {
 		{"ItemsEqual(obj,x)", func(it ap.Item, _ *cbProbe) string {
 			return fmt.Sprint(ap.ItemsEqual(&ap.Object{ID: "https://example.com/o"}, it))
 		}},
-		{"ItemsEqual(x,iri)", func(it ap.Item, _ *cbProbe) string { return fmt.Sprint(ap.ItemsEqual(it, ap.IRI("https://example.com/o"))) }},
-		{"ItemsEqual(iri,x)", func(it ap.Item, _ *cbProbe) string { return fmt.Sprint(ap.ItemsEqual(ap.IRI("https://example.com/o"), it)) }},
+		{"ItemsEqual(x,iri)", func(it ap.Item, _ *cbProbe) string {
+			return fmt.Sprint(ap.ItemsEqual(it, ap.IRI("https://example.com/o")))
+		}},
+		{"ItemsEqual(iri,x)", func(it ap.Item, _ *cbProbe) string {
+			return fmt.Sprint(ap.ItemsEqual(ap.IRI("https://example.com/o"), it))
+		}},
 		{"ToObject", func(it ap.Item, _ *cbProbe) string { return ptrStr(ap.ToObject(it)) }},
 		{"ToActor", func(it ap.Item, _ *cbProbe) string { return ptrStr(ap.ToActor(it)) }},
 		{"ToActivity", func(it ap.Item, _ *cbProbe) string { return ptrStr(ap.ToActivity(it)) }},
@@ -295,7 +299,9 @@ func c20Contexts() []context {
 
 func c20HandContexts() []context {
 	return []context{
-		{"Object.Attachment", func(n ap.Item) ap.Item { return &ap.Object{ID: "https://example.com/o", Type: ap.NoteType, Attachment: n} }},
+		{"Object.Attachment", func(n ap.Item) ap.Item {
+			return &ap.Object{ID: "https://example.com/o", Type: ap.NoteType, Attachment: n}
+		}},
 		{"Object.To[1]", func(n ap.Item) ap.Item {
 			return &ap.Object{ID: "https://example.com/o", Type: ap.NoteType, To: ap.ItemCollection{ap.IRI("https://example.com/a"), n, ap.IRI("https://example.com/b")}}
 		}},
@@ -317,7 +323,9 @@ func c20HandContexts() []context {
 		{"ItemCollection[0]", func(n ap.Item) ap.Item {
 			return ap.ItemCollection{n, &ap.Object{ID: "https://example.com/x", Bto: ap.ItemCollection{ap.IRI("https://example.com/p")}}}
 		}},
-		{"Actor.Inbox", func(n ap.Item) ap.Item { return &ap.Actor{ID: "https://example.com/p", Type: ap.PersonType, Inbox: n, Streams: ap.ItemCollection{n}} }},
+		{"Actor.Inbox", func(n ap.Item) ap.Item {
+			return &ap.Actor{ID: "https://example.com/p", Type: ap.PersonType, Inbox: n, Streams: ap.ItemCollection{n}}
+		}},
 	}
 }
 
